@@ -55,8 +55,20 @@ def closure_family(chk, tier):
 from . import drive_registry as DR
 
 
+EDGE_ROOTS = [
+    [("A", [{}]), ("B", [{}])],                               # two roots without fields
+    [("A", [{}]), ("B", [{"x": 1}])],
+    [("A", [{"x": {}}]), ("B", [{"x": {}}])],
+    [("A", [{"x": 1}]), ("A2", [{"x": 2}]), ("B", [{"y": {"x": 1}}])],
+    [("Only", [{"a": 1}])],
+]
+
+
 def registry_cases(chk, n_random):
     cases = []
+    for roots in EDGE_ROOTS:
+        for pol in DR.POLICIES:
+            cases.append((roots, {}, pol, "edge"))
     for _ in range(n_random):
         samples = DR.random_merge_input(chk.rng)
         envspec = chk.rng.choice(DI.RANDOM_ENVS[:3] + [{}])
@@ -196,6 +208,23 @@ def session_family(pid, tier, chk):
         chk.validate("Trace_Session", traces, inputs, shard=40, extra_constants=DSS.TRACE_CONSTS, batch_extra=extra)
 
 
+from . import drive_order as DO
+
+
+def order_family(chk, tier):
+    quick = tier == "quick"
+    if not DO.mc_order(chk):
+        raise tlc.MachineryError("the unsorted variant of Order.tla is no longer refuted by TLC")
+    chk.exhaustive_parts.append("MC_Order: 125 registries with a 3-member merge group x every pair of iteration orders (Deterministic); "
+                                "unsorted variant refuted")
+    seeds = list(range(6)) if quick else list(range(16))
+    t1, i1 = DO.seed_traces(chk, 40 if quick else 400, seeds)
+    t2, i2 = DO.forced_order_traces(chk, 40 if quick else 400)
+    chk.rules.append("%d inputs reaching the hash-ordered sites x %d PYTHONHASHSEED values through the real CLI in fresh processes; "
+                     "%d inputs x 6 forced iteration orders of ModelMeta sets + repeated in-process runs" % (len(t1), len(seeds), len(t2)))
+    chk.validate("Trace_Order", t1 + t2, dict(i1, **i2), shard=20)
+
+
 def run(pid, tier, replay=None):
     chk = Check(pid, tier)
     if pid in ("C01", "C02", "C07", "C08", "C13"):
@@ -220,6 +249,9 @@ def run(pid, tier, replay=None):
         return chk.finish()
     if pid in ("C14", "C15"):
         session_family(pid, tier, chk)
+        return chk.finish()
+    if pid == "C06":
+        order_family(chk, tier)
         return chk.finish()
     if pid == "C19":
         header_family(chk, tier)
